@@ -1,3 +1,8 @@
+// goirc's go.mod says "go 1.13", so in goirc's own test binaries and in programs of users who have not raised
+// their go directive, timers have the pre-1.23 semantics (a stopped or reset timer can still deliver a stale
+// tick). The harness module needs go 1.23 for its libraries; it keeps that one run-time default as goirc has it.
+//
+//go:debug asynctimerchan=1
 package props
 
 import (
